@@ -69,8 +69,9 @@ class Session:
 
     def cmd(self, t, text, rport=45000):
         if not hasattr(self, "last"):
-            self.last = {}
+            self.last, self.hist = {}, {}
         self.last[t] = text          # the last command on this control link (see repeat())
+        self.hist.setdefault(t, []).append(text)
         raw = text if isinstance(text, (bytes, bytearray)) else (text.encode() + b"\0")
         return self._add(self.sim.cmd(t, raw, ("127.0.0.1", rport)))
 
@@ -80,6 +81,27 @@ class Session:
         a relative FAKE_TOA / FAKE_RSSI moves again, POWERON of a running transceiver is refused)."""
         text = getattr(self, "last", {}).get(t)
         return None if text is None else self.cmd(t, text)
+
+    def again(self, t, rng):
+        """Some earlier command of this control link once more (not necessarily the last one): a SETFH
+        repeated after a POWEROFF has forgotten it configures hopping again, and so on."""
+        h = getattr(self, "hist", {}).get(t)
+        return None if not h else self.cmd(t, rng.choice(h[-8:]))
+
+    def pipelined(self, t, texts, rport=45000):
+        """Several commands waiting on the control socket at once (see Sim.cmd_pipelined): each is
+        executed and answered, in order, exactly as if it had arrived alone."""
+        if not hasattr(self, "last"):
+            self.last, self.hist = {}, {}
+        raws = [x if isinstance(x, (bytes, bytearray)) else (x.encode() + b"\0") for x in texts]
+        sock = self.sim.trx[t].ctrl_if.sock
+        for raw in raws:
+            sock.feed(raw, ("127.0.0.1", rport))
+        for x, raw in zip(texts, raws):
+            self.last[t] = x
+            self.hist.setdefault(t, []).append(x)
+            self._add(self.sim._serve_ctrl(t, raw, ("127.0.0.1", rport)))     # state projected after each
+        sock.inbox.clear()
 
     def data(self, t, raw, remote=None):
         return self._add(self.sim.data(t, raw, remote))
@@ -351,7 +373,7 @@ def traffic_session(ctx, sid, prof, length=None):
         t = rng.randrange(n)
         trx = sim.trx[t]
         if rng.random() < 0.06:
-            s.repeat(t)
+            s.repeat(t) if rng.random() < 0.6 else s.again(t, rng)
             continue
         if r < P["arr"]:
             src = g.clck_src if g.running else 0
